@@ -76,6 +76,29 @@ fn unary(s: &mut Session, a: i32) {
     s.case("from_i32", format!("fx.fromi32 {a}"), trap_or(catch(|| Fixed::from_i32(a).to_bits())));
     s.case("neg", format!("fx.neg {a}"), trap_or(catch(|| (-f).to_bits())));
     s.case("abs", format!("fx.abs {a}"), trap_or(catch(|| f.abs().to_bits())));
+    // model-independent oracles for the unary conversions (i64 arithmetic; ties toward +infinity as the
+    // OpenType rounding rule 'add half, arithmetic shift' prescribes; the i32 add wraps)
+    {
+        let wrap = |v: i64| v as i32 as i64;
+        let fl = |v: i64, d: i64| v.div_euclid(d);
+        let inp = || format!("Fixed({a})");
+        let a64 = a as i64;
+        let chk = |s: &mut Session, name: &str, got: Result<i64, String>, want: i64| {
+            s.oracle(name, got == Ok(want), inp, || format!("got {got:?} want {want}"));
+        };
+        chk(s, "to_f26dot6=floor((x+0x200)/1024)", catch(|| f.to_f26dot6().to_bits() as i64), fl(wrap(a64 + 0x200), 1024));
+        chk(s, "to_f2dot14=floor((x+2)/4)-as-i16", catch(|| f.to_f2dot14().to_bits() as i64), (fl(wrap(a64 + 2), 4)) as i16 as i64);
+        chk(s, "to_i32=floor((x+0x8000)/65536)", catch(|| f.to_i32() as i64), fl(wrap(a64 + 0x8000), 65536));
+        chk(s, "round=floor((x+0x8000)/65536)*65536", catch(|| f.round().to_bits() as i64), fl(wrap(a64 + 0x8000), 65536) * 65536);
+        chk(s, "floor=floor(x/65536)*65536", catch(|| f.floor().to_bits() as i64), fl(a64, 65536) * 65536);
+        chk(s, "fract=x-mod-65536", catch(|| f.fract().to_bits() as i64), a64.rem_euclid(65536));
+        chk(s, "from_i32=wrapping-shift", catch(|| Fixed::from_i32(a).to_bits() as i64), wrap(a64 << 16));
+        let g = F26Dot6::from_bits(a);
+        chk(s, "f26.to_i32=floor((x+32)/64)", catch(|| g.to_i32() as i64), fl(wrap(a64 + 32), 64));
+        chk(s, "f26.round=floor((x+32)/64)*64", catch(|| g.round().to_bits() as i64), fl(wrap(a64 + 32), 64) * 64);
+        chk(s, "f26.floor=floor(x/64)*64", catch(|| g.floor().to_bits() as i64), fl(a64, 64) * 64);
+        chk(s, "f26.fract=x-mod-64", catch(|| g.fract().to_bits() as i64), a64.rem_euclid(64));
+    }
     let g = F26Dot6::from_bits(a);
     s.case("f26.round", format!("fx.round 6 {a}"), trap_or(catch(|| g.round().to_bits())));
     s.case("f26.floor", format!("fx.floor 6 {a}"), trap_or(catch(|| g.floor().to_bits())));
